@@ -62,7 +62,10 @@ TRUSTED = ['translator specs path.py / compact_slot.py / sqlbatch.py (ast -> Gal
            'atomic rename, unlink, link, symlink; directories implicit',
            'compact caches: keyed store over (bundle file, index slot); byte level proved in C19; a store interrupted by '
            'a write error is, for the model, the store it is observed to be (complete or absent)',
-           'payloads are opaque; single-colour payloads are canonical per colour (same tile size in one cache)']
+           'payloads are opaque (channel count + pixel values of RGB / RGBA tiles); single-colour payloads are canonical '
+           'per colour tuple (same tile size in one cache)',
+           'compact caches at byte level: C19 model Bundle.v (files as byte sequences), tied here by the compact_bytes '
+           'correspondence stream (payload = PNG bytes) and proved to answer like the map']
 ASSUMPTIONS = ['tile coordinates and levels are non-negative',
                'all addresses of one cache use the same dimension keys (lower case, distinct); values are arbitrary text',
                'quadkey layout: x, y < 2^z and no dimensions; arcgis layout: no dimensions (finding F4 otherwise)',
